@@ -103,8 +103,8 @@ func containsJump(stmts []ast.Stmt) bool {
 }
 
 type followFacts struct {
-	errChanMade, failedReported, retryContinues, hashPinned, usesPinnedInfo bool
-	line                                                                     int
+	errChanMade, failedReported, retryContinues, hashPinned, usesPinnedInfo, hasAppend bool
+	line                                                                               int
 }
 
 func breakf(format string, a ...interface{}) error {
@@ -374,6 +374,46 @@ func readFollow(pf *pkgFile) (*followFacts, error) {
 	}
 	ff.hashPinned = pinAt >= 0 && infoAt < pinAt && hashAt < pinAt && pinAt < firstStore
 
+	// ---- the store stack: callback(append(scheme(base))) or callback(scheme(base)) ----
+	schemeVar, appendVar, appendArg, cbArg := "", "", "", ""
+	for _, s := range body {
+		as, ok := s.(*ast.AssignStmt)
+		if !ok || len(as.Rhs) != 1 || len(as.Lhs) < 1 {
+			continue
+		}
+		lhs, _ := as.Lhs[0].(*ast.Ident)
+		if c, ok := selCall(as.Rhs[0], "beacon", "NewSchemeStore"); ok && lhs != nil && len(c.Args) == 3 {
+			if schemeVar != "" {
+				return nil, breakf("two NewSchemeStore calls")
+			}
+			schemeVar = lhs.Name
+		}
+		if c, ok := selCall(as.Rhs[0], "beacon", "NewAppendStore"); ok && lhs != nil && len(c.Args) == 2 {
+			id, isID := c.Args[1].(*ast.Ident)
+			if appendVar != "" || !isID {
+				return nil, breakf("unknown NewAppendStore call")
+			}
+			appendVar, appendArg = lhs.Name, id.Name
+		}
+		if c, ok := selCall(as.Rhs[0], "beacon", "NewCallbackStore"); ok && len(c.Args) == 2 {
+			id, isID := c.Args[1].(*ast.Ident)
+			if cbArg != "" || !isID {
+				return nil, breakf("unknown NewCallbackStore call")
+			}
+			cbArg = id.Name
+		}
+	}
+	switch {
+	case schemeVar == "" || cbArg == "":
+		return nil, breakf("NewSchemeStore / NewCallbackStore not found at the top level of the function")
+	case appendVar != "" && appendArg == schemeVar && cbArg == appendVar:
+		ff.hasAppend = true
+	case appendVar == "" && cbArg == schemeVar:
+		ff.hasAppend = false
+	default:
+		return nil, breakf("the store stack is neither callback(append(scheme(..))) nor callback(scheme(..))")
+	}
+
 	// ---- the SyncManager gets that very info ----
 	found := false
 	var bad error
@@ -515,6 +555,7 @@ func genFollow(repo string) (string, error) {
 	fmt.Fprintf(&sb, "(* the goroutine running syncer.Sync sends on errChan when Sync returns a non-nil error *)\nDefinition failed_sync_is_reported : bool := %s.\n", coqBool(ff.failedReported))
 	fmt.Fprintf(&sb, "(* the `case <-errChan` branch of the select ends with continue and never leaves the loop *)\nDefinition retry_branch_continues : bool := %s.\n", coqBool(ff.retryContinues))
 	fmt.Fprintf(&sb, "(* `if !bytes.Equal(info.Hash(), hash) { return err }`, with info from chainInfoFromPeers and hash from the request metadata, precedes createDBStore / Put / NewSyncManager *)\nDefinition hash_pinned_before_store : bool := %s.\n", coqBool(ff.hashPinned))
+	fmt.Fprintf(&sb, "(* the store given to the SyncManager is NewCallbackStore(NewAppendStore(NewSchemeStore(store))) *)\nDefinition follow_stack_has_append_store : bool := %s.\n", coqBool(ff.hasAppend))
 	fmt.Fprintf(&sb, "(* the SyncManager of follow is configured with that same info *)\nDefinition sync_uses_pinned_info : bool := %s.\n", coqBool(ff.usesPinnedInfo))
 	fmt.Fprintf(&sb, "(* %s:%d SyncManager.tryNode *)\n", syncFile, tf.line)
 	fmt.Fprintf(&sb, "(* the one VerifyBeacon call takes s.info.PublicKey *)\nDefinition try_node_verifies_pinned_key : bool := %s.\n", coqBool(tf.verifyPinnedKey))
